@@ -10,10 +10,12 @@
 """
 from __future__ import annotations
 
+import copy as _copy
 import itertools
 import json
 import logging
 import math
+import pickle
 import random
 from fractions import Fraction
 
@@ -29,6 +31,8 @@ TRUSTED = [
     "harness/props/C20.py: executor of the operation language on the real classes, canonical dump "
     "(values as exact rationals, identity classes via `is`, memory classes via np.shares_memory)",
     "numpy record semantics (a np.record taken from a recarray is a view of its row)",
+    "Python built-in list semantics for keys: a negative index i denotes position len+i, a slice selects "
+    "range(*slice.indices(len)) -- the harness computes these with Python itself and hands the model positions",
 ]
 ASSUME = [
     "theorems are about the Gallina model; Python/numpy semantics are outside the logic",
@@ -36,14 +40,22 @@ ASSUME = [
     "model operations, recorded from the implementation (aliasing/ownership/alignment are what is modelled)",
     "EmulsionTimeCourse.append copies the droplets twice (Emulsion(e) then .copy()); the unreachable intermediate "
     "copy is not represented in the model",
-    "droplet values are finite (interface_width=None, i.e. NaN, is exercised by the Python oracle only)",
+    "droplet values are finite in the model (interface_width=None, i.e. NaN, is exercised by the Python oracle's "
+    "width_probe only)",
     "summary statistics theorems are over Q with an abstract per-droplet volume/area function (pi and roots are "
     "not rational); np.std is stated as variance",
+    "copy.copy / copy.deepcopy / pickle of an Emulsion are one model operation (OEmClone: the reconstruction goes "
+    "through Emulsion.append / extend with copy=True); deepcopy / pickle of a DropletTrack is compared with OTrCopy; "
+    "the spelling of an explicit dtype (droplet, numpy dtype, plain descr dtype, array, record) and of the iterable "
+    "(list, tuple, generator) and the Python/numpy type of a number are harness-side provenance of one model operation",
 ]
-RULE = ("operation sequences over the 35-operation language of Model.Heap: exhaustive over an 18-letter alphabet "
-        "after a fixed 9-operation prefix (all sequences up to the tier's length), plus random sequences of length "
-        "<= 40 over all five droplet classes; distinct = distinct operation sequences; non-trivial = the sequence "
-        "contains at least one operation that succeeds and changes a collection")
+RULE = ("operation sequences over the 41-operation language of Model.Heap (43 harness operations): exhaustive over an 18-letter alphabet "
+        "after a fixed 9-operation prefix (all sequences up to the tier's length), exhaustive over the extended "
+        "26-letter alphabet (constructor, clones, general slices) up to length 2 plus sampled length-3 sequences, the "
+        "layout matrix (every ordered pair of 13 droplet layouts through every insertion path), the slice matrix (448 "
+        "general slice keys on four-member collections of the three types), plus random "
+        "sequences of length <= 40 over all five droplet classes; distinct = distinct operation sequences; "
+        "non-trivial = the sequence contains at least one operation that succeeds and changes a collection")
 
 ERR = {"ValueError": "EValue", "TypeError": "EType", "AttributeError": "EAttr", "IndexError": "EIndex"}
 
@@ -165,11 +177,13 @@ class World:
         self.H, self.E, self.T, self.K, self.A, self.L = [], [], [], [], [], []
         self.TV = []         # Python lists of times owned by the caller
         self.Asrc = []       # emulsion each linked array came from (generator bookkeeping only)
+        self.sizes = []      # (collection kind, length of the targeted collection before the operation): evidence only
 
     # -- execution -------------------------------------------------------------------
     def apply(self, op):
         """Execute op on the implementation.  Returns (completed op, outcome) where outcome is 'Ok' or
         the error enum; oracle fields of the op (removed indices, merged value) are filled in."""
+        self.sizes.append(self._target_size(op))
         try:
             op2 = self._do(op)
             return (op2 or op), "Ok"
@@ -179,6 +193,22 @@ class World:
             raise
         except Exception as ex:  # noqa
             return op, ERR.get(type(ex).__name__, "EOther")
+
+    _TARGET = {"E": ("Append", "Extend", "Get", "SetM", "Copy", "Slice", "SliceG", "Add", "RemoveSmall", "RemoveOverlap",
+                     "Link", "Merge", "EmClone", "EmCopyCtor"),
+               "T": ("TcAppend", "TcAppendBad", "TcSlice", "TcSliceG", "TcClear", "TcCopy", "TcClone"),
+               "K": ("TrAppend", "TrAppendBad", "TrSlice", "TrSliceG", "TrGet", "TrCopy", "TrClone"),
+               "L": ("TlRemoveShort",)}
+
+    def _target_size(self, op):
+        try:
+            for kind, names in self._TARGET.items():
+                if op[0] in names:
+                    x = getattr(self, kind)[op[1]]
+                    return kind, len(x.emulsions if kind == "T" else x.droplets if kind == "K" else x)
+        except Exception:  # noqa
+            pass
+        return None
 
     def _do(self, op):
         from droplets.emulsions import Emulsion, EmulsionTimeCourse
@@ -206,27 +236,103 @@ class World:
         elif n == "Extend":
             _, c, idx, cp, fc = op
             ds = [H[i] for i in idx]
+            keep = list(ds)
             e = E[c]
             kw = {}
             if not cp:
                 kw["copy"] = False
             if fc:
                 kw["force_consistency"] = True
-            e.extend(ds, **kw)
+            try:
+                e.extend(ds, **kw)
+            finally:
+                _same_list(ds, keep)
         elif n == "Get":
-            H.append(E[op[1]][op[2]])
+            done = op[:3] + (_norm(op[2], len(E[op[1]])),)
+            try:
+                H.append(E[op[1]][op[2]])
+            except Exception as ex:  # noqa
+                raise _Completed(done, ERR.get(type(ex).__name__, "EOther"))
+            return done
         elif n == "SetM":
-            set_field(E[op[1]][op[2]], op[3], op[4])
+            done = op[:5] + (_norm(op[2], len(E[op[1]])),)
+            try:
+                set_field(E[op[1]][op[2]], op[3], op[4])
+            except Exception as ex:  # noqa
+                raise _Completed(done, ERR.get(type(ex).__name__, "EOther"))
+            return done
         elif n == "Copy":
             e = E[op[1]]
-            E.append(e.copy() if op[2] == -1 else e.copy(min_radius=float(op[2])))
+            E.append(e.copy() if op[2] == -1 else e.copy(min_radius=_num(op[2])))
+        elif n == "EmCtor":
+            _, idx, dt, dtkind, itkind, cp, fc = op
+            ds = [H[i] for i in idx]
+            if dtkind == "empty":
+                if idx or cp or fc:
+                    raise RuntimeError("Emulsion.empty takes no droplets")
+                E.append(Emulsion.empty(H[dt]))
+                return None
+            if itkind == "tuple":
+                ds = tuple(ds)
+            elif itkind == "gen":
+                ds = (d for d in list(ds))
+            kw = {}
+            if dt is not None:
+                d0 = H[dt]
+                kw["dtype"] = {"droplet": lambda: d0, "dtype": lambda: d0.data.dtype,
+                               "plain": lambda: np.dtype(d0.data.dtype.descr),
+                               "array": lambda: np.empty(0, dtype=d0.data.dtype),
+                               "record": lambda: d0.data}[dtkind]()
+            if not cp:
+                kw["copy"] = False
+            if fc:
+                kw["force_consistency"] = True
+            keep = list(ds) if isinstance(ds, list) else None
+            try:
+                E.append(Emulsion(ds, **kw))
+            finally:
+                if keep is not None:
+                    _same_list(ds, keep)
+        elif n == "EmCopyCtor":
+            e = E[op[1]]
+            done = op[:2] + (len(e),)
+            keep = list(e)
+            r = Emulsion(e)                      # the copy constructor, default flags
+            _same_list(e, keep)
+            E.append(r)
+            return done
+        elif n == "EmClone":
+            e = E[op[1]]
+            how = op[2]
+            if how == "copy":
+                r = _copy.copy(e)
+            elif how == "deepcopy":
+                r = _copy.deepcopy(e)
+            else:
+                r = pickle.loads(pickle.dumps(e, protocol={"pickle": pickle.HIGHEST_PROTOCOL, "pickle2": 2}[how]))
+            if type(r) is not Emulsion:
+                raise _WrongKind(f"{how} of an Emulsion is a {type(r).__name__}")
+            E.append(r)
+        elif n == "SliceG":
+            e = E[op[1]]
+            done = op[:5] + (_sel(op[2], op[3], op[4], len(e)),)
+            r = e[_key(op[2], op[3], op[4])]
+            if type(r) is not Emulsion:
+                raise _WrongKind(f"slice of an Emulsion is a {type(r).__name__}")
+            E.append(r)
+            return done
         elif n == "Slice":
             E.append(E[op[1]][op[2]:op[3]])
         elif n == "Add":
             e1, e2 = E[op[1]], E[op[2]]
             E.append(e1 + e2)
         elif n == "RemoveSmall":
-            E[op[1]].remove_small(float(op[2]))
+            if op[2] is None:
+                if any(not float(d.data["radius"]) > -1 for d in E[op[1]]):
+                    raise RuntimeError("a radius is not > -1 (NaN or negative): not a valid droplet")
+                E[op[1]].remove_small()          # default threshold: -inf
+            else:
+                E[op[1]].remove_small(_num(op[2]))
         elif n == "RemoveOverlap":
             e = E[op[1]]
             before = list(e)
@@ -265,7 +371,9 @@ class World:
             return ("Merge", c, i, j, False, value_of(r))
         elif n == "TcNew":
             ems = [E[c] for c in op[1]]
+            keep = list(ems)
             tc = EmulsionTimeCourse(ems, None if op[2] is None else [_num(t) for t in op[2]])
+            _same_list(ems, keep)
             T.append(tc)
             E.extend(tc.emulsions)
         elif n == "TcAppend":
@@ -284,11 +392,29 @@ class World:
             tc = T[op[1]][op[2]:op[3]]
             T.append(tc)
             E.extend(tc.emulsions)
+        elif n == "TcSliceG":
+            tc0 = T[op[1]]
+            done = op[:5] + (_sel(op[2], op[3], op[4], len(tc0.emulsions)),)
+            tc = tc0[_key(op[2], op[3], op[4])]
+            if type(tc) is not EmulsionTimeCourse:
+                raise _WrongKind(f"slice of an EmulsionTimeCourse is a {type(tc).__name__}")
+            T.append(tc)
+            E.extend(tc.emulsions)
+            return done
+        elif n == "TcClone":
+            tc0 = T[op[1]]
+            tc = _copy.deepcopy(tc0) if op[2] == "deepcopy" else pickle.loads(pickle.dumps(tc0))
+            if type(tc) is not EmulsionTimeCourse:
+                raise _WrongKind(f"{op[2]} of an EmulsionTimeCourse is a {type(tc).__name__}")
+            T.append(tc)
+            E.extend(tc.emulsions)
         elif n == "TcClear":
             T[op[1]].clear()
         elif n == "TrNew":
             ds = [H[i] for i in op[1]]
+            keep = list(ds)
             K.append(DropletTrack(ds, None if op[2] is None else [_num(t) for t in op[2]]))
+            _same_list(ds, keep)
         elif n == "TrAppend":
             _, k, i, tm = op
             tr, d = K[k], H[i]
@@ -300,8 +426,30 @@ class World:
             K[op[1]].append(3)
         elif n == "TrSlice":
             K.append(K[op[1]][op[2]:op[3]])
+        elif n == "TrSliceG":
+            k0 = K[op[1]]
+            done = op[:5] + (_sel(op[2], op[3], op[4], len(k0.droplets)),)
+            try:
+                r = k0[_key(op[2], op[3], op[4])]
+            except Exception as ex:  # noqa
+                raise _Completed(done, ERR.get(type(ex).__name__, "EOther"))
+            if type(r) is not DropletTrack:
+                raise _WrongKind(f"slice of a DropletTrack is a {type(r).__name__}")
+            K.append(r)
+            return done
+        elif n == "TrClone":
+            k0 = K[op[1]]
+            r = _copy.deepcopy(k0) if op[2] == "deepcopy" else pickle.loads(pickle.dumps(k0))
+            if type(r) is not DropletTrack:
+                raise _WrongKind(f"{op[2]} of a DropletTrack is a {type(r).__name__}")
+            K.append(r)
         elif n == "TrGet":
-            H.append(K[op[1]][op[2]])
+            done = op[:3] + (_norm(op[2], len(K[op[1]].droplets)),)
+            try:
+                H.append(K[op[1]][op[2]])
+            except Exception as ex:  # noqa
+                raise _Completed(done, ERR.get(type(ex).__name__, "EOther"))
+            return done
         elif n == "TlNew":
             L.append(DropletTrackList([K[k] for k in op[1]]))
         elif n == "TlRemoveShort":
@@ -323,7 +471,13 @@ class World:
             lst = self.TV[op[2]]
             K.append(DropletTrack(ds, lst))
         elif n == "TlistNew":
-            self.TV.append([_num(t) for t in op[1]])
+            kind = op[2] if len(op) > 2 else "list"
+            vals = [_num(t) for t in op[1]]
+            if kind == "array":
+                vals = np.array([float(v) for v in vals], dtype=float)   # the caller's array of times
+            elif kind == "tuple":
+                vals = tuple(vals)
+            self.TV.append(vals)
         elif n == "TlistAppend":
             self.TV[op[1]].append(_num(op[2]))
         elif n == "TlistSet":
@@ -357,14 +511,17 @@ class World:
         d = {}
         d["hnd"] = [value_of(x) for x in H]
         d["ems"] = [(dtype_key(getattr(e, "dtype", None)), [value_of(x) for x in e]) for e in E]
-        d["tcs"] = [([Fraction(t) for t in tc.times], [_index_is(E, e) for e in tc.emulsions]) for tc in T]
-        d["trs"] = [([Fraction(t) for t in k.times], [value_of(x) for x in k.droplets]) for k in K]
+        d["tcs"] = [([_fr(t) for t in tc.times], [_index_is(E, e) for e in tc.emulsions]) for tc in T]
+        d["trs"] = [([_fr(t) for t in k.times], [value_of(x) for x in k.droplets]) for k in K]
         d["arrs"] = [[_row_value(a[i]) for i in range(len(a))] for a in A]
         d["tls"] = [[_index_is(K, k) for k in l] for l in L]
-        d["tvars"] = [[Fraction(t) for t in lst] for lst in self.TV]
+        d["tvars"] = [[_fr(t) for t in lst] for lst in self.TV]
         tlists = [tc.times for tc in T] + [k.times for k in K] + list(self.TV)
         firstl = {}
-        d["tlsig"] = [firstl.setdefault(id(x), i) for i, x in enumerate(tlists)]
+        nown = len(T) + len(K)
+        # identity of the list objects; a tuple the caller holds is immutable (CPython shares e.g. the empty tuple)
+        d["tlsig"] = [firstl.setdefault(("tuple", i) if i >= nown and isinstance(x, tuple) else id(x), i)
+                      for i, x in enumerate(tlists)]
         pos = self.positions()
         first = {}
         d["objsig"] = [first.setdefault(id(x), i) for i, x in enumerate(pos)]
@@ -378,9 +535,65 @@ class _Completed(Exception):
         self.op, self.kind = op, kind
 
 
+def _same_list(lst, keep):
+    """the caller's list passed as an argument still holds the same objects in the same order"""
+    if len(lst) != len(keep) or any(a is not b_ for a, b_ in zip(lst, keep)):
+        raise _WrongKind("the list passed as an argument was changed by the call")
+
+
+class _WrongKind(Exception):
+    """the implementation returned an object of the wrong class (mapped to EOther: no model outcome equals it)"""
+
+
+def tval(t):
+    """plain number of a (possibly tagged) number of the operation language: ("f", x) Python float,
+    ("f64", x) numpy.float64, ("i64", x) numpy.int64, untagged: Python int when integral, else float"""
+    if isinstance(t, (tuple, list)):
+        return t[1]
+    return t
+
+
+def _fr(t):
+    """exact value of a number read back from the implementation (Python or numpy scalar)"""
+    if isinstance(t, np.generic):
+        t = t.item()
+    return Fraction(t)
+
+
 def _num(t):
+    if isinstance(t, (tuple, list)):
+        tag, x = t
+        if tag == "f":
+            return float(x)
+        if tag == "f64":
+            return np.float64(x)
+        if tag == "i64":
+            return np.int64(int(x))
+        raise RuntimeError("unknown number tag " + str(tag))
     f = Fraction(t)
     return int(f) if f.denominator == 1 else float(f)
+
+
+def flavour(t):
+    if isinstance(t, (tuple, list)):
+        return t[0]
+    return "int" if Fraction(t).denominator == 1 else "float"
+
+
+def _norm(i, n):
+    """the list position a Python index i denotes in a list of length n (any out-of-range nat when there is none)"""
+    if i >= 0:
+        return i
+    return n + i if n + i >= 0 else n - i
+
+
+def _key(start, stop, step):
+    return slice(start, stop, step)
+
+
+def _sel(start, stop, step, n):
+    """indices selected by l[start:stop:step] in a list of length n (Python's own slice.indices)"""
+    return tuple(range(*slice(start, stop, step).indices(n)))
 
 
 def _index_is(lst, x):
@@ -441,14 +654,14 @@ def _memory_classes(recs):
 # Coq literals
 # ---------------------------------------------------------------------------------------
 def q(x):
-    fr = Fraction(x)
+    fr = Fraction(tval(x))
     return f"({fr.numerator}#{fr.denominator})%Q"
 
 
 def ql(xs):
     if not xs:
         return "[]"
-    return "[" + ";".join(f"{Fraction(x).numerator}#{Fraction(x).denominator}" for x in xs) + "]%Q"
+    return "[" + ";".join(f"{Fraction(tval(x)).numerator}#{Fraction(tval(x)).denominator}" for x in xs) + "]%Q"
 
 
 def nl(xs):
@@ -486,9 +699,30 @@ def oplit(op):
     if n == "Extend":
         return f"(OExtend {op[1]} {nl(op[2])} {b(op[3])} {b(op[4])})"
     if n == "Get":
-        return f"(OGet {op[1]} {op[2]})"
+        return f"(OGet {op[1]} {op[3] if len(op) > 3 else max(op[2], 0)})"
     if n == "SetM":
-        return f"(OSetM {op[1]} {op[2]} {op[3]} {q(op[4])})"
+        return f"(OSetM {op[1]} {op[5] if len(op) > 5 else max(op[2], 0)} {op[3]} {q(op[4])})"
+    if n == "EmCtor":
+        dt = "None" if op[2] is None else f"(Some {op[2]})"
+        return f"(OEmCtor {nl(op[1])} {dt} {b(op[5])} {b(op[6])})"
+    if n == "EmCopyCtor":
+        # Emulsion(e) with the default flags: fresh copies of all members, dtype of the first one -- the abstract
+        # effect of the full slice e[0:len(e)]
+        return f"(OSlice {op[1]} 0 {op[2] if len(op) > 2 else 0})"
+    if n == "EmClone":
+        return f"(OEmClone {op[1]})"
+    if n == "SliceG":
+        return f"(OSel {op[1]} {nl(op[5] if len(op) > 5 else ())})"
+    if n == "TcSliceG":
+        return f"(OTcSel {op[1]} {nl(op[5] if len(op) > 5 else ())})"
+    if n == "TrSliceG":
+        return f"(OTrSel {op[1]} {nl(op[5] if len(op) > 5 else ())})"
+    if n == "TcClone":
+        return f"(OTcClone {op[1]})"
+    if n == "TrClone":
+        # deepcopy / pickle round trip of a track: fresh droplets, fresh list of times -- the abstract effect of the
+        # copy constructor (whose dimension and length checks always pass on a track built by append)
+        return f"(OTrCopy {op[1]})"
     if n == "Copy":
         return f"(OCopy {op[1]} {q(op[2])})"
     if n == "Slice":
@@ -496,7 +730,8 @@ def oplit(op):
     if n == "Add":
         return f"(OAdd {op[1]} {op[2]})"
     if n == "RemoveSmall":
-        return f"(ORemoveSmall {op[1]} {q(op[2])})"
+        # remove_small() with the default threshold -inf: the model takes -1 (World._do checks all radii are > -1)
+        return f"(ORemoveSmall {op[1]} {q(-1 if op[2] is None else op[2])})"
     if n == "RemoveOverlap":
         return f"(ORemoveOverlap {op[1]} {nl(op[2])})"
     if n == "Link":
@@ -524,7 +759,7 @@ def oplit(op):
     if n == "TrSlice":
         return f"(OTrSlice {op[1]} {op[2]} {op[3]})"
     if n == "TrGet":
-        return f"(OTrGet {op[1]} {op[2]})"
+        return f"(OTrGet {op[1]} {op[3] if len(op) > 3 else max(op[2], 0)})"
     if n == "TlNew":
         return f"(OTlNew {nl(op[1])})"
     if n == "TlRemoveShort":
@@ -664,10 +899,93 @@ ALPHABET_EXTRA = [("TrSlice", 0, 0, 2), ("TrAppendBad", 0), ("Get", 0, 1), ("Rem
                   ("TlistSet", 0, 0, 4.0), ("TrAppend", 0, 0, None)]
 
 
+# letters of the extended alphabet (after PREFIX): constructor, clones, general slices, a negative index
+NEW_LETTERS = [
+    ("EmCtor", (0, 2), None, "droplet", "list", True, True),     # constructor, consistent droplets
+    ("EmCtor", (0, 1), 0, "dtype", "gen", True, True),           # explicit dtype; the diffuse droplet is rejected
+    ("EmCtor", (), 1, "empty", "list", False, False),            # Emulsion.empty(diffuse droplet)
+    ("EmClone", 0, "pickle"),
+    ("EmClone", 0, "copy"),
+    ("EmCopyCtor", 0),                                           # Emulsion(e)
+    ("SliceG", 0, None, None, -1),                               # reversed
+    ("TcSliceG", 0, -1, None, None),                             # the last snapshot, negative start
+    ("TcClone", 0, "pickle"),
+    ("TrSliceG", 0, None, None, -1),
+    ("TrClone", 0, "deepcopy"),
+    ("SetM", 0, -1, 2, 6.0),                                     # negative index
+]
+
+# one representative droplet per data layout: class family x dimension x number of modes
+LAYOUTS = [
+    ("S1", (0, (0.5,), 1.0, ())), ("S2", (0, (0.0, 0.0), 1.0, ())), ("S3", (0, (0.0, 0.5, 1.0), 1.0, ())),
+    ("D2", (1, (1.0, 2.0), 2.0, (0.5,))), ("D3", (1, (1.0, 2.0, 0.0), 2.0, (0.5,))),
+    ("P2m0", (2, (0.0, 1.0), 1.5, (0.5,))), ("P2m2", (2, (0.0, 1.0), 1.5, (0.5, 0.125, -0.125))),
+    ("P2m4", (2, (0.0, 1.0), 1.5, (0.5, 0.125, -0.125, 0.25, 0.0))),
+    ("P3m0", (3, (0.0, 1.0, 2.0), 1.5, (0.5,))), ("P3m3", (3, (0.0, 1.0, 2.0), 1.5, (0.5, 0.125, -0.125, 0.25))),
+    ("P3m8", (3, (0.0, 1.0, 2.0), 1.5, (0.5, 0.125, -0.125, 0.25, 0.0, 0.0, 0.125, 0.0, -0.25))),
+    ("A3m1", (4, (0.0, 0.0, 2.0), 1.5, (0.5, 0.125))), ("A3m3", (4, (0.0, 0.0, 2.0), 1.5, (0.5, 0.125, -0.125, 0.25))),
+]
+LAYOUT_PATHS = ["append", "extend", "ctor", "empty", "dtype", "ctor_dtype", "emptied", "clone", "slice"]
+# pairs that are always run through every path, also by the oracle: same fields and dimension but another number of
+# modes (2-d: 2/4/0, 3-d: 3/8), another dimension, another class family, equal layouts, two classes with one dtype
+LAYOUT_CORE = [("P2m2", "P2m4"), ("P2m4", "P2m2"), ("P2m2", "P2m0"), ("P3m3", "P3m8"), ("S2", "S3"), ("S2", "D2"),
+               ("D2", "S2"), ("S2", "S2"), ("P3m3", "A3m3"), ("D2", "P2m0")]
+
+
+def layout_case(a, b, path, cp, fc, rng):
+    """[New a, New b] + one way of building an emulsion of layout a and adding a droplet of layout b"""
+    va, vb = dict(LAYOUTS)[a], dict(LAYOUTS)[b]
+    kind, it, how = rng.choice(DTKINDS[:5]), rng.choice(ITKINDS), rng.choice(HOWS)
+    ops = {
+        "append": [("EmNew",), ("Append", 0, 0, cp, False), ("Append", 0, 1, cp, fc)],
+        "extend": [("EmNew",), ("Extend", 0, (0, 1, 0), cp, fc)],        # raises in the middle: the first one stays
+        "ctor": [("EmCtor", (0, 1, 0), None, "droplet", it, cp, fc)],
+        "empty": [("EmCtor", (), 0, "empty", "list", False, False), ("Append", 0, 1, cp, fc),
+                  ("Extend", 0, (0, 1), cp, fc)],
+        "dtype": [("EmCtor", (), 0, kind, "list", True, False), ("Extend", 0, (1, 0), cp, fc)],
+        "ctor_dtype": [("EmCtor", (0, 1), 0, kind, it, cp, fc)],
+        "emptied": [("EmNew",), ("Append", 0, 0, True, False), ("RemoveSmall", 0, 100.0), ("Append", 0, 1, cp, fc)],
+        "clone": [("EmCtor", (), 0, "empty", "list", False, False), ("EmClone", 0, how), ("Append", 1, 1, cp, fc)],
+        "slice": [("EmNew",), ("Append", 0, 0, True, False), ("SliceG", 0, None, None, None), ("Append", 1, 1, cp, fc),
+                  ("TcNew", (0,), None), ("Append", 2, 1, cp, fc)],
+    }[path]
+    return [("New", va), ("New", vb)] + ops
+
+
 def dyadic(rng, lo, hi, k=2):
     """multiple of 2^-k in [lo, hi]"""
     s = 1 << k
     return rng.randrange(int(lo * s), int(hi * s) + 1) / s
+
+
+def flavoured(rng, x):
+    """the number x as Python int/float (untagged), explicit Python float, numpy.float64 or numpy.int64"""
+    r = rng.random()
+    if r < 0.55:
+        return x
+    if r < 0.7:
+        return ("f", x)
+    if r < 0.9 or Fraction(x).denominator != 1:
+        return ("f64", x)
+    return ("i64", x)
+
+
+def rtime(rng):
+    """a time: mostly small dyadics; 0 and repeated values occur (times need not increase)"""
+    return flavoured(rng, rng.choice([0.0, dyadic(rng, 0, 8, 1), dyadic(rng, 0, 8, 1), float(rng.randrange(0, 4))]))
+
+
+def rslice(rng, n):
+    """start, stop, step of a general slice for a list of length n: None, negative, beyond the ends, steps != 1"""
+    def bound():
+        r = rng.random()
+        if r < 0.3:
+            return None
+        if r < 0.65:
+            return rng.randrange(0, n + 2)
+        return -rng.randrange(1, n + 3)
+    step = rng.choice([None, None, 1, 2, -1, -1, -2, 3])
+    return bound(), bound(), step
 
 
 def random_value(rng, classes):
@@ -687,7 +1005,7 @@ def random_value(rng, classes):
     elif c == 1:
         extra = (dyadic(rng, 0, 2),)
     else:
-        modes = rng.choice([0, 2, 2, 4]) if c == 2 else rng.choice([0, 1, 1, 4])
+        modes = rng.choice([0, 2, 2, 4]) if c == 2 else rng.choice([0, 1, 3, 3, 4, 8])
         extra = (dyadic(rng, 0, 2),) + tuple(dyadic(rng, -1, 1, 3) for _ in range(modes))
     return (c, pos, rad, extra)
 
@@ -695,12 +1013,18 @@ def random_value(rng, classes):
 OPNAMES = ["New", "View", "SetH", "EmNew", "Append", "Extend", "Get", "SetM", "Copy", "Slice", "Add", "RemoveSmall",
            "RemoveOverlap", "Link", "WriteA", "Merge", "TcNew", "TcAppend", "TcAppendBad", "TcSlice", "TcClear",
            "TrNew", "TrAppend", "TrAppendBad", "TrSlice", "TrGet", "TlNew", "TlRemoveShort",
-           "TcCopy", "TcNewL", "TrCopy", "TrNewL", "TlistNew", "TlistAppend", "TlistSet"]
+           "TcCopy", "TcNewL", "TrCopy", "TrNewL", "TlistNew", "TlistAppend", "TlistSet",
+           "EmCtor", "EmClone", "SliceG", "TcSliceG", "TrSliceG", "TcClone", "TrClone", "EmCopyCtor"]
 WEIGHTS = {"New": 5, "View": 1, "SetH": 4, "EmNew": 2, "Append": 8, "Extend": 3, "Get": 2, "SetM": 4, "Copy": 3,
            "Slice": 3, "Add": 2, "RemoveSmall": 2, "RemoveOverlap": 2, "Link": 3, "WriteA": 3, "Merge": 3, "TcNew": 2,
            "TcAppend": 4, "TcAppendBad": 1, "TcSlice": 2, "TcClear": 1, "TrNew": 2, "TrAppend": 4, "TrAppendBad": 1,
            "TrSlice": 2, "TrGet": 1, "TlNew": 1, "TlRemoveShort": 1,
-           "TcCopy": 3, "TcNewL": 3, "TrCopy": 3, "TrNewL": 3, "TlistNew": 2, "TlistAppend": 3, "TlistSet": 2}
+           "TcCopy": 3, "TcNewL": 3, "TrCopy": 3, "TrNewL": 3, "TlistNew": 2, "TlistAppend": 3, "TlistSet": 2,
+           "EmCtor": 5, "EmClone": 3, "SliceG": 3, "TcSliceG": 2, "TrSliceG": 2, "TcClone": 2, "TrClone": 2,
+           "EmCopyCtor": 2}
+DTKINDS = ["droplet", "dtype", "plain", "array", "record", "empty"]
+ITKINDS = ["list", "tuple", "gen"]
+HOWS = ["copy", "deepcopy", "pickle", "pickle2"]
 MAXMEM = 7      # emulsions / tracks are kept small so that dumps stay small
 MAXTAB = 14
 
@@ -719,6 +1043,16 @@ def random_op(rng, w, classes, default_only=False):
     def flat_index(d):
         n = len(value_flat(value_of(d)))
         return rng.randrange(n) if rng.random() > 0.03 else n
+
+    def pidx(lst):
+        """a Python index: like idx, sometimes negative (counted from the end), rarely out of range below"""
+        i = idx(lst)
+        r = rng.random()
+        if lst and r < 0.3:
+            return i - len(lst) if i < len(lst) else -len(lst) - 1
+        return i
+
+    idx.py = pidx
 
     names = [n for n in OPNAMES]
     if default_only:
@@ -783,17 +1117,44 @@ def _random_op_once(rng, w, classes, default_only, names, idx, flat_index):
             if len(H) >= MAXTAB:
                 return None
             c = idx(E)
-            return ("Get", c, idx(E[c]) if c < len(E) else 0)
+            return ("Get", c, idx.py(E[c]) if c < len(E) else 0)
         if n == "SetM":
             c = idx(E)
-            i = idx(E[c]) if c < len(E) else 0
-            d = E[c][i] if c < len(E) and i < len(E[c]) else None
+            i = idx.py(E[c]) if c < len(E) else 0
+            d = E[c][i] if c < len(E) and -len(E[c]) <= i < len(E[c]) else None
             k = flat_index(d) if d is not None else 0
             return ("SetM", c, i, k, _field_value(rng, d, k))
         if n == "Copy":
             if len(E) >= MAXTAB:
                 return None
-            return ("Copy", idx(E), rng.choice([-1, 0.0, dyadic(rng, 0, 3)]))
+            return ("Copy", idx(E), rng.choice([-1, 0.0, flavoured(rng, dyadic(rng, 0, 3)), -0.5]))
+        if n == "EmCtor":
+            if len(E) >= MAXTAB:
+                return None
+            ids = tuple(idx(H) for _ in range(rng.choice([0, 0, 1, 1, 2, 2, 3])))
+            r = rng.random()
+            if r < 0.12 and H:
+                return ("EmCtor", (), idx(H), "empty", "list", False, False)      # Emulsion.empty(droplet)
+            dt, dtkind = None, "droplet"
+            if r < 0.55:
+                dt, dtkind = idx(H), rng.choice(DTKINDS[:5])
+                if ids and rng.random() < 0.6 and ids[0] < len(H):
+                    dt = ids[0] if rng.random() < 0.5 else dt     # often a dtype that fits the first droplet
+            cp = True if default_only else rng.random() < 0.75
+            return ("EmCtor", ids, dt, dtkind, rng.choice(ITKINDS), cp, rng.random() < 0.5)
+        if n == "EmClone":
+            if len(E) >= MAXTAB:
+                return None
+            return ("EmClone", idx(E), rng.choice(HOWS))
+        if n == "EmCopyCtor":
+            if len(E) >= MAXTAB:
+                return None
+            return ("EmCopyCtor", idx(E))
+        if n == "SliceG":
+            if len(E) >= MAXTAB:
+                return None
+            c = idx(E)
+            return ("SliceG", c) + rslice(rng, len(E[c]) if c < len(E) else 0)
         if n == "Slice":
             if len(E) >= MAXTAB:
                 return None
@@ -807,7 +1168,8 @@ def _random_op_once(rng, w, classes, default_only, names, idx, flat_index):
                 return None
             return ("Add", c1, c2)
         if n == "RemoveSmall":
-            return ("RemoveSmall", idx(E), dyadic(rng, 0, 3))
+            return ("RemoveSmall", idx(E), rng.choice([None, 0.0, 0, -0.5, flavoured(rng, dyadic(rng, 0, 3)),
+                                                        flavoured(rng, dyadic(rng, 0, 3))]))
         if n == "RemoveOverlap":
             return ("RemoveOverlap", idx(E), ())
         if n == "Link":
@@ -844,9 +1206,9 @@ def _random_op_once(rng, w, classes, default_only, names, idx, flat_index):
             if r < 0.4:
                 ts = None
             elif r < 0.9:
-                ts = tuple(dyadic(rng, 0, 8, 1) for _ in cs)
+                ts = tuple(rtime(rng) for _ in cs)
             else:
-                ts = tuple(dyadic(rng, 0, 8, 1) for _ in range(len(cs) + 1))   # wrong length
+                ts = tuple(rtime(rng) for _ in range(len(cs) + 1))   # wrong length
             return ("TcNew", cs, ts)
         if n == "TcAppend":
             if len(E) >= MAXTAB:
@@ -854,7 +1216,7 @@ def _random_op_once(rng, w, classes, default_only, names, idx, flat_index):
             t = idx(T)
             if t < len(T) and len(T[t].emulsions) >= 4:
                 return None
-            return ("TcAppend", t, idx(E), None if rng.random() < 0.5 else dyadic(rng, 0, 8, 1), rng.random() < 0.7)
+            return ("TcAppend", t, idx(E), None if rng.random() < 0.5 else rtime(rng), rng.random() < 0.7)
         if n == "TcAppendBad":
             return ("TcAppendBad", idx(T))
         if n == "TcSlice":
@@ -862,6 +1224,15 @@ def _random_op_once(rng, w, classes, default_only, names, idx, flat_index):
                 return None
             lo = rng.randrange(0, 3)
             return ("TcSlice", idx(T), lo, rng.randrange(0, 5))
+        if n == "TcSliceG":
+            if len(T) >= 6 or len(E) >= MAXTAB - 2:
+                return None
+            t = idx(T)
+            return ("TcSliceG", t) + rslice(rng, len(T[t].emulsions) if t < len(T) else 0)
+        if n == "TcClone":
+            if len(T) >= 6 or len(E) >= MAXTAB - 2:
+                return None
+            return ("TcClone", idx(T), rng.choice(["deepcopy", "pickle"]))
         if n == "TcClear":
             return ("TcClear", idx(T))
         if n == "TrNew":
@@ -872,15 +1243,15 @@ def _random_op_once(rng, w, classes, default_only, names, idx, flat_index):
             if r < 0.4:
                 ts = None
             elif r < 0.9:
-                ts = tuple(dyadic(rng, 0, 8, 1) for _ in hs)
+                ts = tuple(rtime(rng) for _ in hs)
             else:
-                ts = tuple(dyadic(rng, 0, 8, 1) for _ in range(len(hs) + 1))
+                ts = tuple(rtime(rng) for _ in range(len(hs) + 1))
             return ("TrNew", hs, ts)
         if n == "TrAppend":
             k = idx(K)
             if k < len(K) and len(K[k].droplets) >= MAXMEM:
                 return None
-            return ("TrAppend", k, idx(H), None if rng.random() < 0.5 else dyadic(rng, 0, 8, 1))
+            return ("TrAppend", k, idx(H), None if rng.random() < 0.5 else rtime(rng))
         if n == "TrAppendBad":
             return ("TrAppendBad", idx(K))
         if n == "TrSlice":
@@ -888,11 +1259,20 @@ def _random_op_once(rng, w, classes, default_only, names, idx, flat_index):
                 return None
             lo = rng.randrange(0, 3)
             return ("TrSlice", idx(K), lo, rng.randrange(0, 6))
+        if n == "TrSliceG":
+            if len(K) >= 6:
+                return None
+            k = idx(K)
+            return ("TrSliceG", k) + rslice(rng, len(K[k].droplets) if k < len(K) else 0)
+        if n == "TrClone":
+            if len(K) >= 6:
+                return None
+            return ("TrClone", idx(K), rng.choice(["deepcopy", "pickle"]))
         if n == "TrGet":
             if len(H) >= MAXTAB:
                 return None
             k = idx(K)
-            return ("TrGet", k, idx(K[k].droplets) if k < len(K) else 0)
+            return ("TrGet", k, idx.py(K[k].droplets) if k < len(K) else 0)
         if n == "TlNew":
             if len(L) >= 3:
                 return None
@@ -928,16 +1308,23 @@ def _random_op_once(rng, w, classes, default_only, names, idx, flat_index):
         if n == "TlistNew":
             if len(TV) >= 4:
                 return None
-            return ("TlistNew", tuple(dyadic(rng, 0, 8, 1) for _ in range(rng.randrange(0, 4))))
+            kind = rng.choice(["list", "list", "array", "tuple"])
+            return ("TlistNew", tuple((rtime(rng) if kind != "array" else dyadic(rng, 0, 8, 1))
+                                      for _ in range(rng.randrange(0, 4))), kind)
         if n == "TlistAppend":
             j = idx(TV)
-            if j < len(TV) and len(TV[j]) >= 6:
-                return None
-            return ("TlistAppend", j, dyadic(rng, 0, 8, 1))
+            if j < len(TV) and (len(TV[j]) >= 6 or not isinstance(TV[j], list)):
+                return None          # arrays and tuples cannot be appended to
+            return ("TlistAppend", j, rtime(rng))
         if n == "TlistSet":
             j = idx(TV)
+            if j < len(TV) and isinstance(TV[j], tuple):
+                return None          # tuples are immutable
             m = len(TV[j]) if j < len(TV) else 0
-            return ("TlistSet", j, idx(range(m)), dyadic(rng, 0, 8, 1))
+            x = rtime(rng)
+            if j < len(TV) and isinstance(TV[j], np.ndarray):
+                x = float(tval(x))   # stored into a float array
+            return ("TlistSet", j, idx(range(m)), x)
     return None
 
 
@@ -1000,6 +1387,78 @@ def exhaustive_cases(alphabet, maxlen):
                 obs.append((oc, w.dump() if k == n - 1 else None))
             out.append((seq, done, obs))
     return d0, out
+
+
+def run_after_prefix(letters):
+    """one sequence of letters after PREFIX on a fresh world: outcomes of every step, dump after the last"""
+    w = World()
+    for op in PREFIX:
+        w.apply(op)
+    done, obs = [], []
+    for k, letter in enumerate(letters):
+        op2, oc = w.apply(letter)
+        done.append(op2)
+        obs.append((oc, w.dump() if k == len(letters) - 1 else None))
+    return done, obs, w
+
+
+def extended_sequences(rng, nsample3, full3):
+    """sequences over ALPHABET + NEW_LETTERS that contain at least one new letter: all of length 1 and 2, and of
+    length 3 either all (thorough) or a random sample"""
+    alpha = ALPHABET + NEW_LETTERS
+    n0 = len(ALPHABET)
+    out = []
+    for n in (1, 2):
+        for seq in itertools.product(range(len(alpha)), repeat=n):
+            if max(seq) >= n0:
+                out.append(seq)
+    if full3:
+        out += [seq for seq in itertools.product(range(len(alpha)), repeat=3) if max(seq) >= n0]
+    else:
+        seen = set()
+        while len(seen) < nsample3:
+            seq = tuple(rng.randrange(len(alpha)) for _ in range(3))
+            if max(seq) >= n0:
+                seen.add(seq)
+        out += sorted(seen)
+    return alpha, out
+
+
+# the slice matrix: collections of four members (an empty frame, repeated times), every general slice key
+VD = (0, (-2.0, 1.0), 2.5, ())
+VE = (0, (5.0, 5.0), 0.5, ())
+SLICE_PREFIX = [("New", VA), ("New", VC), ("New", VD), ("New", VE), ("EmNew",), ("Extend", 0, (0, 1, 2, 3), True, False),
+                ("Slice", 0, 0, 1), ("Slice", 0, 1, 3), ("EmNew",),
+                ("TcNew", (0, 1, 2, 3), (0.5, 2.0, 2.0, 7.0)), ("TrNew", (0, 1, 2, 3), (1.0, 2.0, 4.0, 8.0))]
+SLICE_BOUNDS = [None, 0, 1, 3, 5, -1, -2, -5]
+SLICE_STEPS = [None, 1, 2, 3, -1, -2, -3]
+
+
+def slice_matrix(rng, fraction):
+    """(header, cases, ops): one general slice of the emulsion / time course / track built by SLICE_PREFIX per case"""
+    w0 = World()
+    for op in SLICE_PREFIX:
+        _, oc = w0.apply(op)
+        assert oc == "Ok", (op, oc)
+    d0 = w0.dump()
+    keys = [(a, b_, st) for a in SLICE_BOUNDS for b_ in SLICE_BOUNDS for st in SLICE_STEPS]
+    out = []
+    for name in ("SliceG", "TcSliceG", "TrSliceG"):
+        for key in keys:
+            if fraction < 1 and rng.random() >= fraction:
+                continue
+            w = World()
+            for op in SLICE_PREFIX:
+                w.apply(op)
+            op2, oc = w.apply((name, 0) + key)
+            out.append(([op2], [(oc, w.dump())], w))
+    return prefix_header(SLICE_PREFIX, d0), d0, out
+
+
+def prefix_header(pre_ops, d0):
+    pre = "[" + ";".join(oplit(o) for o in pre_ops) + "]"
+    return (HEADER + f"Definition pre : list op := {pre}.\nDefinition d0 : dump := {dumplit(d0)}.\n"
+            "Definition agree_x := agree_after pre d0.\n")
 
 
 def exhaustive_header(d0):
@@ -1087,10 +1546,28 @@ class RefModel:
             for v in vs:                      # a rejected droplet stops the loop, earlier ones stay
                 self._append(c, v, fc)
         elif n == "SetM":
-            _, c, i, k, x = op
+            c, i, k, x = op[1:5]
             E[c][1][i] = self._set(E[c][1][i], k, x)
         elif n == "Copy":
-            self._new_em(v for v in E[op[1]][1] if v[2] > float(op[2]))
+            self._new_em(v for v in E[op[1]][1] if v[2] > float(tval(op[2])))
+        elif n == "EmCtor":
+            _, idx, dt, dtkind, itkind, cp, fc = op
+            vs = [H[i] for i in idx]
+            new = [None if dt is None else self._dtype(H[dt]), []]
+            for v in vs:                      # all or nothing: a rejected droplet makes the constructor raise
+                if new[0] is None:
+                    new[0] = self._dtype(v)
+                elif fc and new[0] != self._dtype(v):
+                    raise ValueError
+                new[1].append(v)
+            E.append(new)
+        elif n == "EmCopyCtor":
+            self._new_em(E[op[1]][1])
+        elif n == "EmClone":
+            e = E[op[1]]
+            E.append([e[0], list(e[1])])      # the dtype attribute is taken over
+        elif n == "SliceG":
+            self._new_em(E[op[1]][1][_key(op[2], op[3], op[4])])
         elif n == "Slice":
             self._new_em(E[op[1]][1][op[2]:op[3]])
         elif n == "Add":
@@ -1098,7 +1575,8 @@ class RefModel:
             self._new_em(a + b_)
         elif n == "RemoveSmall":
             e = E[op[1]]
-            e[1] = [v for v in e[1] if not v[2] <= float(op[2])]
+            thr = -math.inf if op[2] is None else float(tval(op[2]))
+            e[1] = [v for v in e[1] if not v[2] <= thr]
         elif n == "RemoveOverlap":
             e = E[op[1]]
             dims = [len(v[1]) for v in e[1]]
@@ -1131,20 +1609,44 @@ class RefModel:
                 raise err
         elif n == "TcNew":
             ems = [E[c] for c in op[1]]
-            ts = list(range(len(ems))) if op[2] is None else [Fraction(t) for t in op[2]]
+            ts = list(range(len(ems))) if op[2] is None else [Fraction(tval(t)) for t in op[2]]
             if len(ts) != len(ems):
                 raise ValueError
             base = len(E)
             for e in ems:
                 self._new_em(e[1])
             T.append([ts, list(range(base, base + len(ems)))])
+        elif n == "TcSliceG":
+            tc = T[op[1]]
+            key = _key(op[2], op[3], op[4])
+            ts, cs = tc[0][key], tc[1][key]
+            base = len(E)
+            for c in cs:
+                self._new_em(E[c][1])
+            T.append([list(ts), list(range(base, base + len(cs)))])
+        elif n == "TcClone":
+            tc = T[op[1]]
+            base = len(E)
+            for c in tc[1]:
+                E.append([E[c][0], list(E[c][1])])
+            T.append([list(tc[0]), list(range(base, base + len(tc[1])))])
+        elif n == "TrSliceG":
+            tr = K[op[1]]
+            key = _key(op[2], op[3], op[4])
+            vs = tr[1][key]
+            if len({len(v[1]) for v in vs}) > 1:
+                raise ValueError
+            K.append([list(tr[0][key]), list(vs)])
+        elif n == "TrClone":
+            tr = K[op[1]]
+            K.append([list(tr[0]), list(tr[1])])
         elif n == "TcAppend":
             _, t, c, tm, cp = op
             tc, e = T[t], E[c]
             self._new_em(e[1])
             if tm is None:
                 tm = 0 if not tc[0] else tc[0][-1] + 1
-            tc[0].append(Fraction(tm))
+            tc[0].append(Fraction(tval(tm)))
             tc[1].append(len(E) - 1)
         elif n == "TcAppendBad":
             T[op[1]]
@@ -1162,7 +1664,7 @@ class RefModel:
             vs = [H[i] for i in op[1]]
             if len({len(v[1]) for v in vs}) > 1:
                 raise ValueError
-            ts = list(range(len(vs))) if op[2] is None else [Fraction(t) for t in op[2]]
+            ts = list(range(len(vs))) if op[2] is None else [Fraction(tval(t)) for t in op[2]]
             if len(ts) != len(vs):
                 raise ValueError
             K.append([ts, vs])
@@ -1173,7 +1675,7 @@ class RefModel:
                 raise ValueError
             if tm is None:
                 tm = 0 if not tr[0] else tr[0][-1] + 1
-            tr[0].append(Fraction(tm))
+            tr[0].append(Fraction(tval(tm)))
             tr[1].append(v)
         elif n == "TrAppendBad":
             K[op[1]]
@@ -1219,11 +1721,11 @@ class RefModel:
                 raise ValueError
             K.append([ts, vs])
         elif n == "TlistNew":
-            self.TV.append([Fraction(t) for t in op[1]])
+            self.TV.append([Fraction(tval(t)) for t in op[1]])
         elif n == "TlistAppend":
-            self.TV[op[1]].append(Fraction(op[2]))
+            self.TV[op[1]].append(Fraction(tval(op[2])))
         elif n == "TlistSet":
-            self.TV[op[1]][op[2]] = Fraction(op[3])
+            self.TV[op[1]][op[2]] = Fraction(tval(op[3]))
         elif n == "WriteA":
             raise NotImplementedError        # handled by the oracle directly (alias by design)
         else:
@@ -1259,8 +1761,9 @@ def check_queries(w, rng):
     fails = []
     for ci, e in enumerate(w.E):
         members = list(e)
-        if any(type(d).__name__ == "PerturbedDroplet3D" for d in members) and rng.random() < 0.8:
-            continue  # numerical volume integration: only a sample of these
+        p3 = [d for d in members if type(d).__name__ == "PerturbedDroplet3D"]
+        if p3 and rng.random() < (0.8 if all(len(np.atleast_1d(d.data["amplitudes"])) <= 1 for d in p3) else 0.97):
+            continue  # numerical volume integration (0.3 s per droplet with 3 or 8 modes): only a sample of these
         perm = list(members)
         rng.shuffle(perm)
         pe = Emulsion(perm, copy=False)                 # same droplets in another order (read only)
@@ -1289,6 +1792,14 @@ def check_queries(w, rng):
                         fails.append(f"E[{ci}].get_size_statistics[{k}] = {st[k]} != definition {x}")
                     if gotp[0] != "ok" or not _close(float(gotp[1][k]), float(x), sc):
                         fails.append(f"E[{ci}].get_size_statistics[{k}] depends on member order")
+                # incl_vanished=False: the same definitions over the members with radius > 0
+                nz = [(r, v) for r, v in zip(radii, vols) if r > 0]
+                gnz = _try(lambda: e.get_size_statistics(incl_vanished=False))
+                if gnz[0] != "ok" or gnz[1]["count"] != len(nz):
+                    fails.append(f"E[{ci}].get_size_statistics(incl_vanished=False) count {gnz}, expected {len(nz)}")
+                elif nz and not (_close(float(gnz[1]["radius_mean"]), float(np.mean([r for r, _ in nz])), sc)
+                                 and _close(float(gnz[1]["volume_mean"]), float(np.mean([v for _, v in nz])), sc)):
+                    fails.append(f"E[{ci}].get_size_statistics(incl_vanished=False) differs from its definition")
             tv, tvp = _try(lambda: e.total_droplet_volume), _try(lambda: pe.total_droplet_volume)
             sc = max([1.0] + [abs(x) for x in vols]) * max(1, len(vols))
             if tv[0] != "ok" or not _close(float(tv[1]), float(sum(vols)), sc):
@@ -1338,6 +1849,20 @@ def check_queries(w, rng):
                 fails.append(f"E[{ci}].bbox depends on member order")
         if len(e) != len(members):
             fails.append(f"len(E[{ci}])")
+        # Emulsion.data is documented as a copy: writing to the returned array must not reach the members
+        # (read-only for the world: the array is thrown away)
+        if members and len({type(d) for d in members}) == 1 and len({d.data.dtype for d in members}) == 1:
+            arr = _try(lambda: e.data)
+            if arr[0] != "ok" or not isinstance(arr[1], np.ndarray) or len(arr[1]) != len(members):
+                fails.append(f"E[{ci}].data: {arr[1] if arr[0] == 'err' else 'wrong kind or length'}")
+            else:
+                before = [value_of(d) for d in members]
+                arr[1]["radius"] += 1.0
+                if [value_of(d) for d in members] != before:
+                    fails.append(f"E[{ci}].data is not a copy: writing to it changed the members")
+        if members:
+            if e[-1] is not members[-1] or e[-len(members)] is not members[0] or e[np.int64(0)] is not members[0]:
+                fails.append(f"E[{ci}][-1] / E[{ci}][-len] / E[{ci}][numpy.int64(0)] are not the last / first member")
     for ki, k in enumerate(w.K):
         ds = list(k.droplets)
         if len(k) != len(ds) or len(k.times) != len(ds):
@@ -1356,6 +1881,17 @@ def check_queries(w, rng):
             rr = _try(lambda: k.get_radii())
             if rr[0] != "ok" or not np.array_equal(rr[1], np.array([float(d.data["radius"]) for d in ds])):
                 fails.append(f"K[{ki}].get_radii != member radii")
+            if k[-1] is not ds[-1] or k.last is not ds[-1] or k.first is not ds[0]:
+                fails.append(f"K[{ki}][-1] / first / last")
+            if len({type(d) for d in ds}) == 1 and len({d.data.dtype for d in ds}) == 1:
+                arr = _try(lambda: k.data)
+                if arr[0] != "ok" or len(arr[1]) != len(ds) or [_fr(t) for t in arr[1]["time"]] != [_fr(t) for t in k.times]:
+                    fails.append(f"K[{ki}].data does not pair times and droplets")
+                else:
+                    before = [value_of(d) for d in ds]
+                    arr[1]["radius"] += 1.0
+                    if [value_of(d) for d in ds] != before:
+                        fails.append(f"K[{ki}].data is not a copy")
             t0 = k.times[len(ds) // 2]
             j = list(k.times).index(t0)
             gp = _try(lambda: k.get_position(t0))
@@ -1378,8 +1914,10 @@ def check_queries(w, rng):
                     fails.append(f"T[{ti}].get_emulsion({t}) is not the emulsion at the nearest time {ts[j]}")
                     break
         for i in range(len(tc.emulsions)):
-            if tc[i] is not tc.emulsions[i]:
+            if tc[i] is not tc.emulsions[i] or tc[i - len(tc.emulsions)] is not tc.emulsions[i]:
                 fails.append(f"T[{ti}][{i}]")
+        if [id(x) for x in tc] != [id(x) for x in tc.emulsions]:
+            fails.append(f"iter(T[{ti}]) is not its emulsions")
     for li, l in enumerate(w.L):
         from droplets.droplet_tracks import DropletTrackList
         perm = list(l)
@@ -1400,7 +1938,7 @@ def oracle_run(ops, rng=None, queries=True):
     w, m = World(), RefModel()
     for step, op in enumerate(ops):
         n = op[0]
-        if n in ("View", "Get", "TrGet") or (n in ("Append", "Extend") and not op[3]):
+        if not _is_default(op):
             continue        # aliasing by design: not part of the property's "default settings"
         before = None
         if n == "WriteA":
@@ -1519,6 +2057,131 @@ def ops_from_json(lst):
 
 
 # ---------------------------------------------------------------------------------------
+# suspected defects: inputs on which the UNCHANGED /repo does not behave like the list model.  They are run and
+# reported in the evidence notes but NOT judged (no violation) until the lead has decided; replays in the style of
+# corpus/defects.py (return None when the property holds, a description otherwise)
+# ---------------------------------------------------------------------------------------
+def S1_self_extend():
+    """e.extend(e): for a list this doubles the list; Emulsion.extend iterates over `droplets` while appending to
+    self, so with droplets is self the loop never ends (memory grows until the process dies)"""
+    from droplets.droplets import SphericalDroplet
+    from droplets.emulsions import Emulsion
+
+    class Guarded(Emulsion):            # deterministic guard instead of a timeout
+        calls = 0
+
+        def append(self, droplet, **kw):
+            Guarded.calls += 1
+            if Guarded.calls > 50:
+                raise OverflowError
+            super().append(droplet, **kw)
+
+    e = Guarded([SphericalDroplet([0, 0], 1), SphericalDroplet([3, 0], 1)])
+    Guarded.calls = 0
+    try:
+        e.extend(e)
+    except OverflowError:
+        return f"e.extend(e) does not terminate (stopped by the guard after 50 appends, len(e) = {len(e)})"
+    if len(e) != 4:
+        return f"e.extend(e) left {len(e)} droplets, expected 4"
+
+
+def S2_inherited_list_mutators():
+    """insert / += / item assignment / slice assignment are inherited from list: they store the caller's object
+    (no copy although no copy=False was given) and bypass the dtype bookkeeping and force_consistency"""
+    from droplets.droplets import DiffuseDroplet, SphericalDroplet
+    from droplets.emulsions import Emulsion
+    out = []
+    for name, put in (("insert(0, d)", lambda e, d: e.insert(0, d)),
+                      ("+= [d]", lambda e, d: e.__iadd__([d])),
+                      ("e[0] = d", lambda e, d: e.__setitem__(0, d)),
+                      ("e[0:1] = [d]", lambda e, d: e.__setitem__(slice(0, 1), [d]))):
+        e = Emulsion([SphericalDroplet([0, 0], 1)])
+        d = DiffuseDroplet([1, 1], 2, 0.5)
+        put(e, d)
+        d.radius = 7
+        if any(x is d for x in e):
+            out.append(f"{name} stores the caller's droplet itself (a later d.radius = 7 shows in the emulsion)")
+        e2 = Emulsion()
+        e2.insert(0, d)
+        if e2.dtype is None:
+            out.append("insert into a new emulsion leaves dtype None (dim is None although a droplet is stored)")
+    return "; ".join(sorted(set(out))) or None
+
+
+# ---------------------------------------------------------------------------------------
+# oracle-only probes (judged): inputs the heap model does not represent
+# ---------------------------------------------------------------------------------------
+def width_probe(rng):
+    """area-weighted interface width over members whose width is None (stored as NaN), exactly 0.0 or positive, with
+    vanished droplets (radius 0: no area) and droplets without a width; equals its definition in every member order"""
+    from droplets.droplets import DiffuseDroplet, PerturbedDroplet2D, SphericalDroplet
+    from droplets.emulsions import Emulsion
+    ds = []
+    for _ in range(rng.randrange(0, 6)):
+        w_ = rng.choice([None, 0.0, 0.0, dyadic(rng, 0, 2), dyadic(rng, 0, 2)])
+        r = rng.choice([0.0, dyadic(rng, 0, 3), dyadic(rng, 0, 3)])
+        k = rng.randrange(3)
+        ds.append(SphericalDroplet([0.0, 1.0], r) if k == 0 else DiffuseDroplet([1.0, 0.0], r, w_) if k == 1
+                  else PerturbedDroplet2D([0.0, 0.0], r, w_, [0.125, 0.0]))
+    num = den = 0.0
+    for d in ds:
+        if "interface_width" in d.data.dtype.names and not math.isnan(float(d.data["interface_width"])):
+            a = float(d.surface_area)
+            num += float(d.data["interface_width"]) * a
+            den += a
+    exp = None if den == 0 else num / den
+    desc = [(type(d).__name__, float(d.data["radius"]),
+             None if "interface_width" not in d.data.dtype.names else float(d.data["interface_width"])) for d in ds]
+    for order in (list(ds), list(reversed(ds))):
+        got = _try(lambda: Emulsion(order).interface_width)
+        if got[0] != "ok" or (got[1] is None) != (exp is None) or (exp is not None and not _close(float(got[1]), exp, abs(exp))):
+            return {"what": f"Emulsion.interface_width = {got} != definition {exp}", "members": desc}
+    return None
+
+
+def long_history_probe(n=1203):
+    """a long history: n default-time appends keep times and members aligned, default times are 0..n-1, slices,
+    clones and the copy constructor of the long collections stay paired"""
+    from droplets.droplets import SphericalDroplet
+    from droplets.droplet_tracks import DropletTrack
+    from droplets.emulsions import Emulsion, EmulsionTimeCourse
+    d = SphericalDroplet([0.0, 0.0], 1.0)
+    e = Emulsion([d])
+    tc, tr = EmulsionTimeCourse(), DropletTrack()
+    for i in range(n):
+        d.radius = float(i)
+        e[0].radius = float(i)
+        tc.append(e)
+        tr.append(d)
+        if len(tc.times) != len(tc.emulsions) or len(tr.times) != len(tr.droplets):
+            return f"misaligned after {i + 1} appends"
+    if list(tc.times) != list(range(n)) or list(tr.times) != list(range(n)):
+        return "default times are not 0..n-1"
+    if [float(x[0].data["radius"]) for x in tc.emulsions] != [float(i) for i in range(n)]:
+        return "stored snapshots follow later changes of the caller's emulsion"
+    if [float(x.data["radius"]) for x in tr.droplets] != [float(i) for i in range(n)]:
+        return "stored track droplets follow later changes of the caller's droplet"
+    for key in (slice(None, None, 100), slice(-3, None), slice(999, 1001), slice(None, None, -400)):
+        for coll, mem in ((tc, "emulsions"), (tr, "droplets")):
+            s_ = coll[key]
+            ts = list(range(n))[key]
+            rr = [float((x[0] if mem == "emulsions" else x).data["radius"]) for x in getattr(s_, mem)]
+            if list(s_.times) != ts or rr != [float(t) for t in ts]:
+                return f"{type(coll).__name__}[{key}] does not pair times and members"
+    for cl in (EmulsionTimeCourse(tc), pickle.loads(pickle.dumps(tc)), _copy.deepcopy(tc)):
+        if list(cl.times) != list(range(n)) or len(cl.emulsions) != n or cl.emulsions[7] is tc.emulsions[7] \
+                or cl.times is tc.times or cl.emulsions[7][0] is tc.emulsions[7][0]:
+            return "clone of a long time course is not an independent aligned copy"
+    if tc.get_emulsion(1000.4) is not tc.emulsions[1000] or tc.get_emulsion(-5) is not tc.emulsions[0]:
+        return "nearest-time lookup in a long time course"
+    return None
+
+
+SUSPECTED = [("S1_self_extend", S1_self_extend), ("S2_inherited_list_mutators", S2_inherited_list_mutators)]
+
+
+# ---------------------------------------------------------------------------------------
 # the check
 # ---------------------------------------------------------------------------------------
 DEPS = ["Proofs/C20.vo"]
@@ -1538,28 +2201,115 @@ CORPUS = [
      ("TcAppend", 1, 0, 99.0, True), ("TlistNew", (0.0, 1.0)), ("TcNewL", (0, 0), 0), ("TcAppend", 2, 0, None, True),
      ("TlistAppend", 0, 5.0), ("TlistSet", 0, 0, 7.0), ("TrNewL", (0, 0), 0), ("TrNew", (0,), (3.0,)), ("TrCopy", 1),
      ("TrAppend", 2, 0, None), ("TrAppend", 1, 0, 8.0), ("TcSlice", 0, 0, 2), ("TcAppend", 3, 0, -1.0, True)],
+    # constructor / Emulsion.empty / explicit dtype / clones / general slices / number flavours / caller-owned arrays
+    [("New", VA), ("New", VB), ("New", VC), ("EmCtor", (0, 2, 0), None, "droplet", "gen", True, True),
+     ("EmCtor", (0, 1), None, "droplet", "list", True, True), ("EmCtor", (), 1, "empty", "list", False, False),
+     ("Append", 1, 0, True, True), ("Append", 1, 1, True, True), ("EmCtor", (1,), 1, "array", "tuple", True, True),
+     ("EmClone", 0, "copy"), ("EmClone", 1, "pickle"), ("EmClone", 2, "deepcopy"), ("SetM", 3, -1, 2, 9.0),
+     ("EmCopyCtor", 0), ("EmCopyCtor", 1), ("SetM", 6, 0, 2, 8.0),
+     ("SliceG", 0, None, None, -1), ("SliceG", 0, -2, None, None), ("SliceG", 0, None, None, 2),
+     ("TlistNew", (0.5, 1.5, 1.5), "array"), ("TcNewL", (0, 0, 3), 0), ("TlistSet", 0, 1, 7.0),
+     ("TcAppend", 0, 0, ("f64", 0.0), True), ("TcAppend", 0, 1, None, True), ("TcSliceG", 0, None, None, -2),
+     ("TcSliceG", 0, -3, -1, None), ("TcClone", 0, "pickle"), ("TcAppend", 3, 0, ("i64", 4), True),
+     ("TcClone", 1, "deepcopy"), ("TlistNew", (("f", 2.0), ("i64", 3)), "tuple"), ("TrNewL", (0, 2), 1),
+     ("TrSliceG", 0, None, None, -1), ("TrClone", 0, "pickle"), ("TrAppend", 2, 0, None), ("TrClone", 1, "deepcopy"),
+     ("RemoveSmall", 0, None), ("RemoveSmall", 0, -0.5), ("RemoveSmall", 0, ("f64", 1.0)), ("Copy", 0, ("i64", 1)),
+     ("EmClone", 0, "pickle2"), ("Link", 3), ("EmClone", 3, "pickle"), ("WriteA", 0, 0, 2, 4.0)],
 ]
 
 
 def _is_default(op):
+    """operations with the default settings (the property's list model); the others alias by design"""
     n = op[0]
-    return not (n in ("View", "Get", "TrGet") or (n in ("Append", "Extend") and not op[3]))
+    if n in ("View", "Get", "TrGet"):
+        return False
+    if n in ("Append", "Extend"):
+        return bool(op[3])
+    if n == "EmCtor":
+        return bool(op[5]) or not op[1]
+    return True
 
 
 def _nontrivial(done, obs):
     return any(oc == "Ok" and o[0] not in ("New", "EmNew") for o, (oc, _) in zip(done, obs))
 
 
+def _sgn(x):
+    return "None" if x is None else ("neg" if x < 0 else "nonneg")
+
+
+def _book_sizes(ctx, w, skip=0):
+    for o in w.sizes[skip:]:
+        if o is not None:
+            ctx.count("target_collection_length", f"{o[0]}:{min(o[1], 4)}")
+
+
 def _book(ctx, done, obs, kind):
     ctx.case([kind] + ops_to_json(done), nontrivial=_nontrivial(done, obs))
     ctx.count("sequence_kind", kind)
     ctx.count("sequence_length", len(done))
+    where = {}           # handle -> collections it was inserted into
+    tvk = []             # kind of every caller-held sequence of times
     for o, (oc, _) in zip(done, obs):
-        ctx.count("operation", o[0])
+        n = o[0]
+        if n == "TlistNew" and oc == "Ok":
+            tvk.append(o[2] if len(o) > 2 else "list")
+        if n in ("TcNewL", "TrNewL", "TlistSet", "TlistAppend"):
+            j = o[2] if n in ("TcNewL", "TrNewL") else o[1]
+            ctx.count("caller_times_use", f"{n}:{tvk[j] if j < len(tvk) else 'missing'}:{oc}")
+        if oc == "Ok" and n in ("Append", "TrAppend"):
+            tgt = ("E" if n == "Append" else "K", o[1])
+            seen_in = where.setdefault(o[2], [])
+            ctx.count("same_droplet_inserted", "again_same_collection" if tgt in seen_in else
+                      ("second_collection" if seen_in else "first_time"))
+            seen_in.append(tgt)
+        ctx.count("operation", n)
         ctx.count("outcome", oc)
-        if o[0] == "New":
+        ctx.count("operation_outcome", f"{n}:{oc}")
+        if n == "New":
             ctx.count("droplet_class", _classes()[o[1][0]].__name__)
             ctx.count("droplet_dim", len(o[1][1]))
+            if o[1][0] >= 2:
+                ctx.count("droplet_modes", f"{_classes()[o[1][0]].__name__}:{len(o[1][3]) - 1}")
+            ctx.count("droplet_radius", "zero" if o[1][2] == 0 else "positive")
+        elif n in ("Append", "Extend"):
+            ctx.count("insert_flags", f"{n}:copy={o[3]},force_consistency={o[4]}")
+            if n == "Extend":
+                ctx.count("extend_length", len(o[2]))
+                ctx.count("extend_same_droplet_twice", len(set(o[2])) < len(o[2]))
+        elif n == "EmCtor":
+            ctx.count("constructor_dtype", "none" if o[2] is None else o[3])
+            ctx.count("constructor_iterable", o[4])
+            ctx.count("constructor_length", len(o[1]))
+            ctx.count("insert_flags", f"EmCtor:copy={o[5]},force_consistency={o[6]}")
+        elif n in ("EmClone", "TcClone", "TrClone"):
+            ctx.count("clone_provenance", f"{n}:{o[2]}")
+        elif n in ("SliceG", "TcSliceG", "TrSliceG"):
+            ctx.count("slice_key", f"start={_sgn(o[2])},stop={_sgn(o[3])},step={o[4]}")
+            if len(o) > 5:
+                ctx.count("slice_result_length", min(len(o[5]), 4))
+        elif n in ("Get", "SetM", "TrGet"):
+            ctx.count("index_sign", f"{n}:{'neg' if o[2] < 0 else 'nonneg'}")
+        elif n in ("Copy", "RemoveSmall"):
+            x = o[2]
+            ctx.count("min_radius", f"{n}:" + ("default" if x is None or (n == "Copy" and x == -1) else
+                                               "zero" if tval(x) == 0 else "neg" if tval(x) < 0 else "pos"))
+            if x is not None:
+                ctx.count("number_flavour", flavour(x))
+        elif n in ("TcAppend", "TrAppend"):
+            tm = o[3]
+            ctx.count("append_time", "default" if tm is None else ("zero" if tval(tm) == 0 else "given"))
+            if tm is not None:
+                ctx.count("number_flavour", flavour(tm))
+        elif n in ("TcNew", "TrNew"):
+            ctx.count("ctor_times", "default" if o[2] is None else f"given:{min(len(o[2]), 3)}")
+            ctx.count("ctor_members", min(len(o[1]), 3))
+            for tm in (o[2] or ()):
+                ctx.count("number_flavour", flavour(tm))
+        elif n == "TlistNew":
+            ctx.count("caller_times_kind", o[2] if len(o) > 2 else "list")
+        elif n in ("TcNewL", "TrNewL"):
+            ctx.count("ctor_members", min(len(o[1]), 3))
 
 
 def _oracle_violation(ctx, ops, why, seen):
@@ -1589,6 +2339,14 @@ def check(ctx: vlib.Ctx) -> int:
                    "dumps (contents + aliasing signature + outcome per operation) compared inside Coq")
     seen = set()
     suspicious = []      # op sequences on which model and implementation disagree
+    import time as _time
+    stage = ctx.extra.setdefault("stage_wall_s", {})
+    _t = [_time.time()]
+
+    def lap(name):
+        stage[name] = round(_time.time() - _t[0], 1)
+        _t[0] = _time.time()
+    lap("prove")
     # ---- (b1) exhaustive sequences after the fixed prefix
     if ok:
         maxlen = ctx.scale(3, 4)
@@ -1610,6 +2368,78 @@ def check(ctx: vlib.Ctx) -> int:
                               f"of {len(cases)} sequences, first: {ops_to_json(out[bad[0]][1])}")
             suspicious += [PREFIX + out[i][1] for i in bad[:40]]
         ctx.extra["exhaustive"] = {"alphabet": len(alpha3), "max_length": maxlen, "cases": len(cases)}
+    lap("exhaustive")
+    # ---- (b1x) the extended alphabet: constructor, clones, general slices, negative index
+    if ok:
+        alpha, seqs = extended_sequences(rng, 300, not ctx.quick)
+        cases, dones = [], []
+        for seq in seqs:
+            done, obs, w = run_after_prefix([alpha[i] for i in seq])
+            cases.append(caselit(done, obs, d0))
+            dones.append(done)
+            _book(ctx, PREFIX + done, [("Ok", None)] * len(PREFIX) + obs, f"extended_len{len(seq)}")
+            _book_sizes(ctx, w, len(PREFIX))
+        bad = vlib.run_cases(ctx, "ext", exhaustive_header(d0), cases, "agree_x", shard=max(60, len(cases) // 32 + 1),
+                             timeout=900)
+        if bad:
+            ctx.broken.append(f"correspondence (extended alphabet): model and implementation differ on {len(bad)} "
+                              f"of {len(cases)} sequences, first: {ops_to_json(dones[bad[0]])}")
+            suspicious += [PREFIX + dones[i] for i in bad[:40]]
+        ctx.extra["extended"] = {"alphabet": len(alpha), "cases": len(cases)}
+    lap("extended")
+    # ---- (b3) the layout matrix: every ordered pair of layouts through every insertion path
+    if ok:
+        names = [n_ for n_, _ in LAYOUTS]
+        plan = []
+        for a in names:
+            for b_ in names:
+                core = (a, b_) in LAYOUT_CORE
+                # quick tier: every pair through three of the nine paths (all nine for the core pairs)
+                paths = LAYOUT_PATHS if (core or not ctx.quick) else rng.sample(LAYOUT_PATHS, 3)
+                for path in paths:
+                    plan.append((a, b_, path, True, True))
+                    if not ctx.quick or core:
+                        plan += [(a, b_, path, True, False), (a, b_, path, False, True), (a, b_, path, False, False)]
+                    elif rng.random() < 0.25:
+                        plan.append((a, b_, path, rng.random() < 0.5, rng.random() < 0.5))
+        cases, dones = [], []
+        for a, b_, path, cp, fc in plan:
+            done, obs, w = run_sequence(layout_case(a, b_, path, cp, fc, rng))
+            cases.append(caselit(done, obs))
+            dones.append(done)
+            _book(ctx, done, obs, "layout_matrix")
+            _book_sizes(ctx, w)
+            ctx.count("layout_pair", f"{a}->{b_}")
+            ctx.count("layout_path", f"{path}:copy={cp},force_consistency={fc}")
+            va, vb = dict(LAYOUTS)[a], dict(LAYOUTS)[b_]
+            ctx.count("layout_difference", "+".join(
+                [x for x, y in (("class_family", RefModel._dtype(va)[0] != RefModel._dtype(vb)[0]),
+                                ("dimension", len(va[1]) != len(vb[1])),
+                                ("modes", len(va[3]) != len(vb[3])), ("class_only", va[0] != vb[0])) if y] or ["none"]))
+            ctx.count("layout_rejected", any(oc == "EValue" for oc, _ in obs))
+        bad = vlib.run_cases(ctx, "lay", HEADER, cases, "agree", shard=max(60, len(cases) // 32 + 1), timeout=900)
+        if bad:
+            ctx.broken.append(f"correspondence (layout matrix): model and implementation differ on {len(bad)} of "
+                              f"{len(cases)} cases, first: {plan[bad[0]]} {ops_to_json(dones[bad[0]])}")
+            suspicious += [dones[i] for i in bad[:40]]
+        ctx.extra["layout_matrix"] = {"layouts": len(names), "paths": len(LAYOUT_PATHS), "cases": len(cases)}
+    lap("layout_matrix")
+    # ---- (b4) the slice matrix: every general slice key on four-member collections of all three types
+    if ok:
+        hdr, ds0, out = slice_matrix(rng, 0.4 if ctx.quick else 1.0)
+        cases, dones = [], []
+        for done, obs, w in out:
+            cases.append(caselit(done, obs, ds0))
+            dones.append(done)
+            _book(ctx, SLICE_PREFIX + done, [("Ok", None)] * len(SLICE_PREFIX) + obs, "slice_matrix")
+            _book_sizes(ctx, w, len(SLICE_PREFIX))
+        bad = vlib.run_cases(ctx, "slc", hdr, cases, "agree_x", shard=max(40, len(cases) // 16 + 1), timeout=900)
+        if bad:
+            ctx.broken.append(f"correspondence (slice matrix): model and implementation differ on {len(bad)} of "
+                              f"{len(cases)} slices, first: {ops_to_json(dones[bad[0]])}")
+            suspicious += [SLICE_PREFIX + dones[i] for i in bad[:40]]
+        ctx.extra["slice_matrix"] = {"keys": len(SLICE_BOUNDS) ** 2 * len(SLICE_STEPS), "cases": len(cases)}
+    lap("slice_matrix")
     # ---- (b2) random sequences over all five classes
     if ok:
         nrand = ctx.scale(240, 1600)
@@ -1620,18 +2450,27 @@ def check(ctx: vlib.Ctx) -> int:
             cases.append(caselit(done, obs))
             seqs.append(done)
             _book(ctx, done, obs, "random")
+            _book_sizes(ctx, _w)
         ctx.sample({"random_case": {"ops": ops_to_json(seqs[0][:8]), "n_ops": len(seqs[0])}})
         bad = vlib.run_cases(ctx, "rnd", HEADER, cases, "agree", shard=max(4, nrand // 48), timeout=900)
         if bad:
             ctx.broken.append(f"correspondence (random sequences): model and implementation differ on {len(bad)} "
                               f"of {len(cases)} sequences")
             suspicious += [seqs[i] for i in bad[:40]]
+    lap("random")
     # ---- (c) property oracle: corpus, a stream of default-settings sequences, and (when something is broken)
     #      the sequences on which model and implementation disagree plus a larger stream
     orng = random.Random(ctx.seed + 1)
     todo = [list(c) for c in CORPUS]
     todo += [PREFIX + [ALPHABET[a], ALPHABET[b_]] for a in range(len(ALPHABET)) for b_ in range(len(ALPHABET))
              if _is_default(ALPHABET[a]) and _is_default(ALPHABET[b_])]
+    todo += [PREFIX + [a, b_] for a in NEW_LETTERS for b_ in ALPHABET + NEW_LETTERS if _is_default(a) and _is_default(b_)]
+    todo += [PREFIX + [a, b_] for a in ALPHABET for b_ in NEW_LETTERS if _is_default(a) and _is_default(b_)]
+    todo += [SLICE_PREFIX + [(nm, 0) + key for nm in ("SliceG", "TcSliceG", "TrSliceG")]
+             for key in ((None, None, 2), (None, None, -2), (1, None, 3), (-1, None, -3), (-5, 5, 2), (3, 0, -1))]
+    lrng = random.Random(ctx.seed + 2)
+    todo += [layout_case(a, b_, path, True, fc, lrng) for a, b_ in LAYOUT_CORE for path in LAYOUT_PATHS
+             for fc in (True, False)]
     nstream = ctx.scale(100, 600) if not ctx.broken else ctx.scale(300, 900)
     for i in range(nstream):
         done, obs, _w = random_sequence(orng, orng.randrange(4, 41), [0, 1, 2, 3, 4], default_only=True)
@@ -1650,6 +2489,41 @@ def check(ctx: vlib.Ctx) -> int:
         if why:
             _oracle_violation(ctx, ops, why, seen)
     ctx.extra["oracle_sequences"] = nor
+    # oracle-only probes: interface widths None / 0.0 / positive with vanished droplets; a long history
+    prng = random.Random(ctx.seed + 3)
+    for i in range(ctx.scale(150, 600)):
+        if len(ctx.violations) >= 3:
+            break
+        try:
+            r = width_probe(prng)
+        except Exception as ex:  # noqa
+            r = {"what": f"interface width probe raised {type(ex).__name__}: {ex}", "members": []}
+        ctx.count("oracle_probe", "interface_width_None_zero_positive")
+        if r:
+            ctx.violations.append({"what": r["what"], "input": {"members": r["members"]}, "found": True,
+                                   "broken": ctx.broken[:3]})
+    try:
+        r = long_history_probe()
+    except Exception as ex:  # noqa
+        r = f"long history probe raised {type(ex).__name__}: {ex}"
+    ctx.count("oracle_probe", "long_history_1203_appends")
+    if r and len(ctx.violations) < 3:
+        ctx.violations.append({"what": r, "input": {"probe": "long_history_probe", "appends": 1203}, "found": True,
+                               "broken": ctx.broken[:3]})
+    lap("oracle")
+    # ---- suspected defects: run, reported, not judged
+    for name, fn in SUSPECTED:
+        try:
+            res = fn()
+        except Exception as ex:  # noqa
+            res = f"replay raised {type(ex).__name__}: {ex}"
+        ctx.count("suspected_not_judged", f"{name}:{'fails' if res else 'holds'}")
+        ctx.notes.append(f"SUSPECTED (reported, not judged) {name}: " + (res or "holds on this tree"))
+    ctx.notes.append("deepcopy / pickle round trip of a DropletTrack is compared with the model's copy constructor "
+                     "OTrCopy (same abstract effect); copy.copy of a time course or track (shallow by Python convention), "
+                     "DropletTrackList clones, slice step 0 and list indices (TypeError / ValueError of the built-in "
+                     "list) are outside the model; interface_width=None (NaN) and the summary queries are exercised "
+                     "by the Python oracle only")
     return vlib.finish(ctx, "", TRUSTED, ASSUME, RULE)
 
 
@@ -1657,6 +2531,30 @@ def replay(path: str) -> int:
     obj = json.load(open(path))
     print(json.dumps(obj, indent=1)[:3000])
     inp = obj.get("input") or {}
+    if inp.get("probe") == "long_history_probe":
+        why = long_history_probe(int(inp.get("appends", 1203)))
+        print("long history probe on current tree:", why or "passes")
+        return 1 if why else 0
+    if "members" in inp:
+        from droplets.droplets import DiffuseDroplet, PerturbedDroplet2D, SphericalDroplet
+        from droplets.emulsions import Emulsion
+        ds = []
+        for name, r, w_ in inp["members"]:
+            w_ = None if (w_ is None or (isinstance(w_, float) and math.isnan(w_))) else w_
+            ds.append(SphericalDroplet([0.0, 1.0], r) if name == "SphericalDroplet" else
+                      DiffuseDroplet([1.0, 0.0], r, w_) if name == "DiffuseDroplet" else
+                      PerturbedDroplet2D([0.0, 0.0], r, w_, [0.125, 0.0]))
+        num = den = 0.0
+        for d in ds:
+            if "interface_width" in d.data.dtype.names and not math.isnan(float(d.data["interface_width"])):
+                num += float(d.data["interface_width"]) * float(d.surface_area)
+                den += float(d.surface_area)
+        exp = None if den == 0 else num / den
+        got = [_try(lambda: Emulsion(o).interface_width) for o in (ds, ds[::-1])]
+        print("Emulsion.interface_width (both orders):", got, "definition:", exp)
+        bad = any(g[0] != "ok" or (g[1] is None) != (exp is None)
+                  or (exp is not None and not _close(float(g[1]), exp, abs(exp))) for g in got)
+        return 1 if bad else 0
     if "ops" not in inp:
         print("no operation sequence stored (obligation / correspondence failure without failing input)")
         return 1
